@@ -1,0 +1,24 @@
+// SPDX-FileCopyrightText: 2020-present Open Networking Foundation <info@opennetworking.org>
+//
+// SPDX-License-Identifier: Apache-2.0
+
+//go:build verif
+
+package configuration
+
+import (
+	"github.com/onosproject/onos-config/pkg/southbound/gnmi"
+	"github.com/onosproject/onos-config/pkg/store/topo"
+	configuration "github.com/onosproject/onos-config/pkg/store/v2/configuration"
+	"github.com/onosproject/onos-lib-go/pkg/controller"
+)
+
+// NewReconcilerForVerif returns the configuration reconciler on its own, without the controller runtime
+func NewReconcilerForVerif(topo topo.Store, conns gnmi.ConnManager, configurations configuration.Store) controller.Reconciler {
+	return &Reconciler{conns: conns, topo: topo, configurations: configurations}
+}
+
+// NewWatchersForVerif returns the configuration controller's watchers, in the order NewController registers them
+func NewWatchersForVerif(topo topo.Store, configurations configuration.Store) []controller.Watcher {
+	return []controller.Watcher{&Watcher{configurations: configurations}, &TopoWatcher{topo: topo}}
+}
